@@ -402,7 +402,18 @@ def generate(seed: int, tier: str = "quick") -> dict:
                 program.append(o)
     if any(o.get("float") for o in program):
         faults.append({"kind": "float_arguments"})
-    return {"property": ID, "seed": seed, "world": world, "program": program, "faults": faults, "opts": {"primary": primary.id, "entries": entries}}
+    opts = {"primary": primary.id, "entries": entries}
+    kinds = {m_["kind"] for m_ in world["markets"]}
+    rd = R.sub(seed, "direct_drive")
+    if "deribit" not in kinds and world.get("interval", "1min") == "1min" and rd.random() < 0.05:
+        # the markets driven without Actuator.run() (statuses carrying their data row; no check_market, so a token the assets
+        # do not name has no wallet entry at all)
+        opts["drive"] = "direct"
+        program = [o for o in program if o["phase"] in ("initialize", "before_bar", "on_bar", "after_bar")]
+        if "squeeth" in kinds and rd.random() < 0.6:
+            world["assets"].pop("OSQTH", None)
+        faults.append({"kind": "markets_driven_without_the_actuator"})
+    return {"property": ID, "seed": seed, "world": world, "program": program, "faults": faults, "opts": opts}
 
 
 def _applicable(e, ctx, closed, nb):
